@@ -1,5 +1,13 @@
 package check
 
+import (
+	"context"
+	"os"
+	"os/exec"
+	"strings"
+	"time"
+)
+
 func init() {
 	Register(&Property{
 		ID: "C08",
@@ -13,9 +21,70 @@ func init() {
 	})
 }
 
-// ThoroughExtras runs the thorough-only machinery (mutant self-test, cross references).
+// ThoroughExtras runs the thorough-only machinery: the mutant self-test of the
+// property's rules on scratch copies of the current tree, and a cross-reference
+// pass with generic linters whose output is recorded, never a verdict.
 func ThoroughExtras(c *Ctx, prop *Property) map[string]any {
-	return map[string]any{}
+	out := map[string]any{}
+	if os.Getenv("EVYCHECK_NO_MUTANTS") != "" {
+		return out
+	}
+	res := RunMutants(c, prop.ID)
+	fired, skipped := 0, 0
+	var failures []string
+	for _, m := range res {
+		switch m.Status {
+		case "fired":
+			fired++
+		case "skipped":
+			skipped++
+		default:
+			failures = append(failures, m.ID+" ("+m.Rule+"): "+m.Status+": "+m.Detail)
+		}
+	}
+	out["mutants_total"] = len(res)
+	out["mutants_fired"] = fired
+	out["mutants_skipped"] = skipped
+	out["mutants"] = res
+	out["mutant_failures"] = failures
+	out["cross_reference"] = crossReference(c, prop)
+	return out
+}
+
+// crossReference runs generic tools over the repository and records how many
+// reports they produce; it is informational only.
+func crossReference(c *Ctx, prop *Property) map[string]any {
+	out := map[string]any{"note": "generic linters give no verdict on the property; counts are recorded for comparison only"}
+	run := func(name string, args ...string) {
+		path, err := exec.LookPath(name)
+		if err != nil {
+			out[name] = "not installed"
+			return
+		}
+		ctx, cancel := context.WithTimeout(context.Background(), 4*time.Minute)
+		defer cancel()
+		cmd := exec.CommandContext(ctx, path, args...)
+		cmd.Dir = c.Repo
+		cmd.Env = loadEnv()
+		b, _ := cmd.CombinedOutput()
+		lines := []string{}
+		for _, l := range strings.Split(string(b), "\n") {
+			if strings.TrimSpace(l) != "" && !strings.HasPrefix(l, "#") {
+				lines = append(lines, l)
+			}
+		}
+		first := lines
+		if len(first) > 3 {
+			first = first[:3]
+		}
+		out[name] = map[string]any{"reports": len(lines), "first": first}
+	}
+	run("staticcheck", "./pkg/...", ".")
+	run("errcheck", "./pkg/...", ".")
+	if prop.ID == "C03" {
+		run("nilaway", "./pkg/parser/...", "./pkg/lexer/...")
+	}
+	return out
 }
 
 func init() {
@@ -27,7 +96,7 @@ func init() {
 			"the compiler rejects node kinds it cannot translate instead of leaving the operand stack inconsistent (R-EXHAUST/Compile).",
 		NotDecided:  "Stack balance in general, symbol-table histories (slot arithmetic), host crashes from value-level arithmetic.",
 		Assumptions: []string{"the VM dispatch is the switch over Opcode with the most cases in (*VM).Run", "ip is the instruction pointer variable of Run"},
-		Rules:       []*Rule{ruleOpTable, ruleNarrow, ruleJumpPatch, exhaustRule("Compile", 20), ruleLoopVarScope, ruleVMValues, f2iRule("pkg/bytecode", 2)},
+		Rules:       []*Rule{ruleOpTable, ruleNarrow, ruleJumpPatch, exhaustRule("Compile", 20), ruleLoopVarScope, ruleVMValues, f2iRule("pkg/bytecode", 2), ruleSlotMax},
 	})
 }
 
@@ -41,7 +110,7 @@ func init() {
 			"copies through deepCopy (R-FRESH, SSA origin of the stored slice).",
 		NotDecided:  "That Slice copies the right elements (value-level).",
 		Assumptions: []string{"no reflection/unsafe reaches evaluator values (checked by R-TIMESOURCE for unsafe)"},
-		Rules:       []*Rule{ruleImmut, ruleFresh},
+		Rules:       []*Rule{ruleImmut, ruleFresh, ruleEvalMisc},
 	})
 	Register(&Property{
 		ID: "C12",
@@ -51,7 +120,7 @@ func init() {
 			"snapshot (R-FRESH); no observable depends on Go map order (R-MAPRANGE).",
 		NotDecided:  "The mutators' arithmetic under arbitrary operation sequences (which index is spliced), panics' text.",
 		Assumptions: []string{},
-		Rules:       []*Rule{ruleMapEnc, ruleFresh, ruleMapRange},
+		Rules:       []*Rule{ruleMapEnc, ruleFresh, ruleMapRange, ruleMapEq, ruleEvalMisc},
 	})
 	Register(&Property{
 		ID: "C11",
@@ -59,7 +128,7 @@ func init() {
 			"number becomes an index only through normalizeIndex whose float→int conversion is NaN/Inf/fraction safe (R-F2I).",
 		NotDecided:  "The bounds predicate itself (-n ≤ i < n, a ≤ b ≤ n) and which element is returned.",
 		Assumptions: []string{},
-		Rules:       []*Rule{runesRule("pkg/evaluator", "stringVal", 4)},
+		Rules:       []*Rule{runesRule("pkg/evaluator", "stringVal", 4), ruleEvalMisc},
 	})
 }
 
@@ -73,7 +142,7 @@ func init() {
 			"stop test and the exported stop function raises the flag (R-YIELD).",
 		NotDecided:  "The one-step latency between raising the flag during a yield and the next eval, and the prefix-of-effects clause (schedule-level).",
 		Assumptions: []string{"built-ins cannot re-enter the evaluator (they receive no evaluator reference)"},
-		Rules:       []*Rule{ruleYield},
+		Rules:       []*Rule{ruleYield, ruleEvalMisc},
 	})
 	Register(&Property{
 		ID: "C10",
@@ -85,7 +154,7 @@ func init() {
 			"private snapshot (R-FRESH).",
 		NotDecided:  "The arithmetic of numeric ranges and which elements are visited; the parser's static scope tracking (see C05).",
 		Assumptions: []string{},
-		Rules:       []*Rule{ruleScopePairEval, ruleSignal, ruleFresh},
+		Rules:       []*Rule{ruleScopePairEval, ruleSignal, ruleFresh, ruleScopePairParser},
 	})
 }
 
@@ -98,7 +167,7 @@ func init() {
 			"status 1 and writes no SVG for a rejected program (R-PARSEGATE).",
 		NotDecided:  "That each static check's predicate is right for every program (scope, type and termination predicates are value-level).",
 		Assumptions: []string{"advancePastNL is the only routine that discards more than one token"},
-		Rules:       []*Rule{ruleEOLState, ruleParseGate},
+		Rules:       []*Rule{ruleEOLState, ruleParseGate, ruleTermConj, ruleScopePairParser},
 	})
 }
 
@@ -111,7 +180,7 @@ func init() {
 			"composite type into wrapAny — the class behind the confirmed internal-error panics (R-FIXED).",
 		NotDecided:  "Termination, index ranges, nil values that travel through fields, and that line/column are correct (position arithmetic is value-level).",
 		Assumptions: []string{"field-borne nils are not tracked"},
-		Rules:       []*Rule{ruleNilRet, ruleScopeType, ruleFixed},
+		Rules:       []*Rule{ruleNilRet, ruleScopeType, ruleFixed, ruleLexBound, ruleIndexGuard},
 	})
 	Register(&Property{
 		ID: "C04",
@@ -130,7 +199,7 @@ func init() {
 			"in the layout table on every path that returns it (R-LAYOUTKEY).",
 		NotDecided:  "Token-sequence equality, re-parse equality, comment placement inside multi-line literals, expression re-binding — these need the output text.",
 		Assumptions: []string{},
-		Rules:       []*Rule{ruleEOLState, exhaustRule("format", 25), ruleLayoutKey},
+		Rules:       []*Rule{ruleEOLState, exhaustRule("format", 25), ruleLayoutKey, ruleNoInPlace},
 	})
 }
 
@@ -144,7 +213,7 @@ func init() {
 			"the parser equals the specification's table (R-DISPATCH).",
 		NotDecided:  "Numerical/string results of each operator, deep equality, the whitespace-sensitive tokenisation.",
 		Assumptions: []string{"docs/spec.md keeps its `## Precedence` numbered list and its operator table (otherwise the check is undecided, never silent)"},
-		Rules:       []*Rule{rulePrec, ruleEvalOrder, ruleDispatch, ruleMapRange},
+		Rules:       []*Rule{rulePrec, ruleEvalOrder, ruleDispatch, ruleMapRange, ruleWSSClose, ruleMapEq},
 	})
 }
 
@@ -159,7 +228,7 @@ func init() {
 			"carry a convertible type into wrapAny (R-FIXED); scopes are paired so a variable's run-time value has its static type (R-SCOPEPAIR/evaluator).",
 		NotDecided:  "That the parser's typing of operands matches the evaluator's assertions in evalBinaryExpr/normalizeIndex beyond the operator matrix, panics inside the Go standard library for exotic values, memory exhaustion.",
 		Assumptions: []string{"element assertions inside array arguments (poly) are not checked"},
-		Rules:       []*Rule{ruleBuiltinSig, f2iRule("pkg/evaluator", 4), exhaustRule("eval", 25), ruleAcceptWrap, ruleFixed, ruleScopePairEval},
+		Rules:       []*Rule{ruleBuiltinSig, f2iRule("pkg/evaluator", 4), exhaustRule("eval", 25), ruleAcceptWrap, ruleFixed, ruleScopePairEval, ruleMapEq, ruleTermConj, ruleEvalMisc},
 	})
 	Register(&Property{
 		ID: "C13",
@@ -170,7 +239,7 @@ func init() {
 			"(R-ERRPROTO); len/has/del use the rune view and the map representation (R-RUNES, R-MAPENC).",
 		NotDecided:  "Returned values and formatted text of the built-ins (value-level).",
 		Assumptions: []string{},
-		Rules:       []*Rule{ruleBuiltinSig, ruleNaNGuard, f2iRule("pkg/evaluator", 4), ruleErrProto, runesRule("pkg/evaluator", "stringVal", 4)},
+		Rules:       []*Rule{ruleBuiltinSig, ruleNaNGuard, f2iRule("pkg/evaluator", 4), ruleErrProto, runesRule("pkg/evaluator", "stringVal", 4), ruleEvalMisc},
 	})
 }
 
@@ -213,7 +282,7 @@ func init() {
 			"user numbers become indexes only through NaN/fraction-safe guards (R-F2I/pkg/bytecode).",
 		NotDecided:  "Equality of final globals in general; slot arithmetic of the symbol table; constant pooling.",
 		Assumptions: []string{},
-		Rules:       []*Rule{exhaustRule("Compile", 20), ruleDispatch, ruleLoopVarScope, ruleVMValues, runesRule("pkg/bytecode", "stringVal", 4), f2iRule("pkg/bytecode", 2)},
+		Rules:       []*Rule{exhaustRule("Compile", 20), ruleDispatch, ruleLoopVarScope, ruleVMValues, runesRule("pkg/bytecode", "stringVal", 4), f2iRule("pkg/bytecode", 2), ruleSlotMax},
 	})
 }
 
@@ -240,7 +309,7 @@ func init() {
 			"multi-file run with a non-zero status (R-ATOMICWRITE W5–W7).",
 		NotDecided:  "Idempotence, blank-line policy, trailing whitespace in general, the final newline — properties of the produced text.",
 		Assumptions: []string{},
-		Rules:       []*Rule{ruleIndentPair, ruleAtomicWrite},
+		Rules:       []*Rule{ruleIndentPair, ruleAtomicWrite, ruleNoInPlace},
 	})
 	Register(&Property{
 		ID: "C15",
